@@ -119,7 +119,7 @@ impl Prop for C07 {
     const PART: &'static str = "two-instances";
     const RULE: &'static str = "proptest choice sequences -> planner cases with call histories (setup, solve(budget), repeated solve, re-setup with another problem, PRM construct_roadmap / set_problem_definition, occasionally solve before setup), 50% goals whose sampler consumes the passed generator. Two planner instances are built from the same case in one process and driven through the same history; after every step results (error variant or path, bit for bit) and tree/roadmap snapshots (states, parents, costs, adjacency) must be identical. Non-trivial = history with >= 2 solves or a re-setup, or RRT-Connect with an RNG-consuming goal, reaching >= 10 nodes.";
     fn random_cases(tier: Tier) -> usize {
-        tier.pick(3_000, 60_000)
+        tier.pick(8_000, 60_000)
     }
     fn gen(ch: &mut Ch, _tier: Tier) -> PlanCase {
         let prof = Profile {
@@ -148,7 +148,7 @@ impl Prop for C07Prefix {
     const PART: &'static str = "prefix";
     const RULE: &'static str = "same seed and problem run (a) with iteration budget N, (b) with budget N+k, (c) under a real 0.2-3 ms wall-clock timeout without budget: the node sequences (per tree; PRM: milestones) of any two of the three runs must be prefix-related. Non-trivial = the shorter run has >= 5 nodes and the longer one strictly more.";
     fn random_cases(tier: Tier) -> usize {
-        tier.pick(1_500, 30_000)
+        tier.pick(3_000, 30_000)
     }
     fn gen(ch: &mut Ch, _tier: Tier) -> PlanCase {
         let prof = Profile {
